@@ -48,6 +48,7 @@ fn main() {
                 "C15" => props::plan_c15(tier, seed),
                 "C12" => props::plan_c12(tier, seed),
                 "C07" => props::plan_c07(tier, seed),
+                "C08" => props::plan_c08(tier, seed),
                 "C01" | "C02" => props::plan_c01(tier, seed, if thorough { 6000 } else { 400 }),
                 "C03" | "C04" | "C05" | "C06" | "C09" | "C10" | "C11" | "C13" | "C17" | "C18" => {
                     props::plan_history(prop, tier, seed, if thorough { 20000 } else { 600 })
@@ -87,8 +88,7 @@ fn main() {
                 Ok(v) => v["lines"].as_array().map(|a| a.iter().filter_map(|x| x.as_str().map(|s| s.to_string())).collect()).unwrap_or_default(),
                 Err(_) => txt.lines().map(|s| s.to_string()).collect(),
             };
-            let i = run::run_impl(&lines);
-            let m = run::run_model(driver, &lines);
+            let (i, m) = run::run_both(driver, &lines);
             for k in 0..lines.len() {
                 println!("> {}\n  impl : {}\n  model: {}", lines[k], i[k], m.get(k).cloned().unwrap_or_default());
             }
